@@ -231,12 +231,39 @@ class Infinity:
         return isinstance(a, Infinity) and isinstance(b, Infinity) and a.pos == b.pos
 
 
+def t_mentions_tensor(e: Any) -> bool:
+    seen = set()
+    stack = [e]
+    while stack:
+        x = stack.pop()
+        if x.get_id() in seen:
+            continue
+        seen.add(x.get_id())
+        if x.sort() == tz.T:
+            return True
+        stack.extend(x.children())
+    return False
+
+
 def b_int(interp: Any, args: List[Any], kwargs: Dict[str, Any]) -> Any:
     (v,) = args
     if isinstance(v, (bool, int)):
         return int(v)
     if isinstance(v, Fraction):
         return int(v)
+    if isinstance(v, SV) and v.kind == "int":
+        return v
+    if isinstance(v, (SV, SymTensor)):
+        # truncation towards zero of a symbolic real / of the item of a tensor:  t = trunc(x)
+        from . import torchmodel
+
+        x = zreal(torchmodel.tensor_item(interp, v)) if isinstance(v, SymTensor) else zreal(v)
+        t = interp.ctx.fresh_int("trunc")
+        tz_ = z3.ToReal(t.z)
+        interp.ctx.axiom(z3.If(x >= 0, z3.And(tz_ <= x, x < tz_ + 1), z3.And(tz_ >= x, x > tz_ - 1)))
+        if isinstance(v, SymTensor) or t_mentions_tensor(x):
+            interp.ctx.__dict__.setdefault("data_derived", []).append(t.z)  # a scalar derived from tensor DATA
+        return t
     raise OutOfReach("int() of symbolic")
 
 
@@ -525,6 +552,13 @@ def get_attribute(interp: Any, obj: Any, name: str) -> Any:
                         return a
                     if "property" in decos:
                         return interp.call_funcval(a, [obj], {})
+                    if "cached_property" in decos:
+                        # ASSUMED functools.cached_property: computed on first access, then stored in the
+                        # instance __dict__ under the attribute's name (never recomputed)
+                        v = interp.call_funcval(a, [obj], {})
+                        interp.ctx.effects.append(("cache", id(obj), name))
+                        obj.attrs[name] = v
+                        return v
                     if "classmethod" in decos:
                         return BoundMethod(obj.cls, a)
                     return BoundMethod(obj, a)
@@ -673,7 +707,14 @@ def get_item(interp: Any, c: Any, k: Any) -> Any:
         raise PyRaise("KeyError", repr(k))
     if isinstance(c, (list, tuple, str)):
         if isinstance(k, SV):
-            raise OutOfReach("symbolic index into a concrete sequence")
+            # symbolic index into a concrete sequence: decided position by position (path split)
+            if k.kind != "int" or len(c) > 64:
+                raise OutOfReach("symbolic index into a concrete sequence")
+            n = len(c)
+            for i in range(n):
+                if interp.truth(interp.equals(k, i)) or interp.truth(interp.equals(k, i - n)):
+                    return c[i]
+            raise PyRaise("IndexError", "index out of range")
         if isinstance(k, (int, slice)):
             try:
                 return c[k]
